@@ -8,6 +8,7 @@ import (
 	"strings"
 
 	"github.com/NVIDIA/KAI-scheduler/pkg/common/constants"
+	"github.com/NVIDIA/KAI-scheduler/pkg/scheduler/k8s_internal"
 	v1 "k8s.io/api/core/v1"
 	"k8s.io/apimachinery/pkg/api/resource"
 )
@@ -183,7 +184,14 @@ func BuildResourceVectorMap(nodeResources []v1.ResourceList) *ResourceVectorMap 
 }
 
 func convertResourceToFloat64(rName v1.ResourceName, rQuant resource.Quantity) float64 {
-	if rName == v1.ResourceCPU {
+	switch {
+	case rName == v1.ResourceCPU:
+		return float64(rQuant.MilliValue())
+	case rName == v1.ResourceMemory, rName == v1.ResourcePods, isGpuResource(string(rName)), IsMigResource(rName),
+		rName == v1.ResourceEphemeralStorage, rName == v1.ResourceStorage:
+		return float64(rQuant.Value())
+	case k8s_internal.IsScalarResourceName(rName):
+		// keep the units of Resource.scalarResources: extended scalar resources are tracked in milli-units
 		return float64(rQuant.MilliValue())
 	}
 	return float64(rQuant.Value())
